@@ -269,12 +269,51 @@ pub fn scenarios(tier: Tier) -> Vec<LinkScenario<fn() -> Box<dyn Probe>>> {
             }
         }
     }
+    // sliced unreliable messages against budgets that cover some of their slices but not all (a message that does
+    // not fit is dropped whole, never in part), competing with a reliable channel before / after it
+    for (oi, order) in [
+        vec![Chan::new(0, Kind::Unreliable, 50_000, 0), Chan::new(1, Kind::Ordered, 50_000, r)],
+        vec![Chan::new(1, Kind::Ordered, 50_000, r), Chan::new(0, Kind::Unreliable, 50_000, 0)],
+    ]
+    .iter()
+    .enumerate()
+    {
+        for &b in &[1300u64, 2400, 2500, 3599, 3600, 4300, 4800] {
+            for dir in 0..2usize {
+                if dir == 1 && (tier == Tier::Quick || oi == 1) {
+                    continue;
+                }
+                let names: Vec<String> = order.iter().map(|c| format!("{}{:?}", c.id, c.kind)).collect();
+                let mut cfg = LinkCfg::base(&format!("sliced unreliable, budget {} order [{}] dir{}", b, names.join(","), dir), order.clone(), order.clone());
+                cfg.bytes_per_tick = b;
+                cfg.dt_ms = vec![100];
+                cfg.horizon = 4;
+                cfg.tail = 12;
+                cfg.drains = vec![Drain::End];
+                cfg.allow_reverse = false;
+                cfg.fates = vec![Fate::Ok, Fate::Drop, Fate::Delay2];
+                cfg.script = vec![
+                    Send::at(0, dir, 0, 3000),
+                    Send::at(0, dir, 1, 1300),
+                    Send::at(1, dir, 0, 3000),
+                    Send::at(2, dir, 0, 2500),
+                    Send::at(2, dir, 0, 3000),
+                    Send::at(2, dir, 1, 100),
+                    Send::at(3, dir, 0, 3601),
+                ];
+                out.push(LinkScenario {
+                    cfg,
+                    probe: (|| Box::new(BudgetProbe::new()) as Box<dyn Probe>) as fn() -> Box<dyn Probe>,
+                });
+            }
+        }
+    }
     out
 }
 
 pub fn run(tier: Tier) -> i32 {
     let mut rep = Report::new("C14", tier);
-    rep.rule("M2: budgets {0,1,100,1199,1200,1201,2400,2500,60000} x 8 channel lists (all 6 orders of the three kinds, two lists with two reliable channels) x a script mixing {1,100,1200,1201,2401}-byte messages on every channel at ticks 0 and 2; every schedule with <= d drop/delay deviations on data and ack packets (retransmission backlogs compete with fresh traffic); oracle per get_packets_to_send on the decoded packets: sum of payload bytes <= budget; an eligible reliable item left unsent needs more than what its channel left; unreliable messages go out whole or are dropped because they did not fit and never reappear; with budget >= 2500 every reliable message arrives after the tail");
+    rep.rule("M2: budgets {0,1,100,1199,1200,1201,2400,2500,60000} x 8 channel lists (all 6 orders of the three kinds, two lists with two reliable channels) x a script mixing {1,100,1200,1201,2401}-byte messages on every channel at ticks 0 and 2, plus 7 budgets x 2 channel lists with 2500..3601-byte unreliable messages (budgets covering some of their slices) beside a reliable channel; every schedule with <= d drop/delay deviations on data and ack packets (retransmission backlogs compete with fresh traffic); oracle per get_packets_to_send on the decoded packets: sum of payload bytes <= budget; an eligible reliable item left unsent needs more than what its channel left; unreliable messages go out whole or are dropped because they did not fit and never reappear; with budget >= 2500 every reliable message arrives after the tail");
     rep.assume("'eligible' = unacknowledged and never sent or last sent >= resend_time ago (snapshot hook); admission rule per the implementation: a slice needs SLICE_SIZE bytes of budget left");
     let sc = scenarios(tier);
     run_link_scenarios(&mut rep, "m2", &sc, tier.pick(2, 3), tier.pick(120.0, 1500.0));
